@@ -35,8 +35,11 @@ func hObserve(src string, policy int) (seen []hEvent, producerDone bool, stuck b
 	return hObserveReader(func() io.Reader { return strings.NewReader(src) }, policy)
 }
 
+// hConfig is the parser configuration of the current harness run (default; the zero value; ';').
+var hConfig = NewDefaultConfig()
+
 func hObserveReader(mk func() io.Reader, policy int) (seen []hEvent, producerDone bool, stuck bool) {
-	p := NewParser(NewDefaultConfig())
+	p := NewParser(hConfig)
 	if verifEngine() {
 		p.ParseStream(mk())
 		n := verifEventCount()
@@ -121,12 +124,16 @@ func hFile() string {
 
 // Harness_channel_protocol: the channel parser against the callback parser on the same input.
 func Harness_channel_protocol() {
+	hConfig = []Config{NewDefaultConfig(), {}, {CommentChar: ';'}}[verifChoose("config", 1+2*verifBound("configs", 0))]
 	src := hFile()
+	if verifBound("configs", 0) == 1 {
+		src = "#1 burger:\n  bun: 1\n" + src
+	}
 	policy := verifChoose("policy", 2)
 	// reference: the callback parser, stopping at its first error like ParseStream's callback
 	ref := &hRec{}
 	var firstErr error
-	ParseStreamCallback(strings.NewReader(src), NewDefaultConfig(), func(n *shared.ParserNode, err error) (bool, error) {
+	ParseStreamCallback(strings.NewReader(src), hConfig, func(n *shared.ParserNode, err error) (bool, error) {
 		if err != nil {
 			firstErr = err
 			return true, err
@@ -135,6 +142,7 @@ func Harness_channel_protocol() {
 		return false, nil
 	})
 	seen, producerDone, stuck := hObserve(src, policy)
+	hConfig = NewDefaultConfig()
 	verifCover("observed")
 	verifAssert("consumer-terminates", !stuck)
 	if stuck {
